@@ -35,9 +35,7 @@ from .. import c20_consts_oracle, trace, trace_consts
 from ..core import COQ, STD_AXIOMS_OK, Check
 
 PROPS_FILE = COQ / "theories" / "Props" / "C20.v"
-# core.Check.prove's parser reads the header "Axioms:" of a Print Assumptions
-# block as a name; tolerate it (reported to the maintainer of core.py)
-REALS_OK = frozenset(STD_AXIOMS_OK) | {"Axioms"}
+REALS_OK = frozenset(STD_AXIOMS_OK)
 
 SIG_F7 = "C20:F7 learner2D.choose_point_in_triangle raises on numpy>=2.x (np.cross of 2-vectors)"
 SIG_F7B = "C20:F7b learner2D.default_loss imports removed scipy.interpolate.interpnd"
@@ -1027,6 +1025,30 @@ def locate_failed_lemmas(log: str):
     return sorted(set(names))
 
 
+def run_corpus(chk: Check, mods):
+    """corpus/C20/*.json: {"test": name, "args": ...} -- inputs that exposed a
+    mutation once; replayed first on every run."""
+    n = bad = 0
+    for f in sorted((chk.work.parents[1] / "corpus" / "C20").glob("*.json")):
+        d = json.loads(f.read_text())
+        T = TESTS.get(d.get("test"))
+        if T is None:
+            chk.broke("machinery", f"corpus file {f.name} names an unknown test", d.get("test"))
+            continue
+        try:
+            e = T.check(mods, unser(d["args"]))
+        except Exception as ex:  # noqa: BLE001
+            e = f"raised {type(ex).__name__}: {str(ex)[:200]}"
+        if e == "skip":
+            continue
+        n += 1
+        chk.note_case((d["test"], d["args"]), True)
+        if e:
+            bad += 1
+            chk.fail(f"C20:{d['test']}", f"{d['test']} (corpus {f.name}): {e}", {"test": d["test"], "args": d["args"]})
+    return {"replayed": n, "failed": bad}
+
+
 def run_search(chk: Check, mods, n_per_test, only=None):
     stats = {}
     for name, T in TESTS.items():
@@ -1106,7 +1128,8 @@ def run(chk: Check) -> int:
         chk.extra["translator_self_check"] = {"kernels": len(ks), "evaluations": total, "disagreements": bad,
                                               "paths": {k.name: k.npaths for k in ks if k.npaths > 1}}
         chk.log(f"translator self-check: {total} evaluations of {len(ks)} traced kernels against the real functions, {bad} disagreements")
-    # 4. search
+    # 4. search (corpus first)
+    chk.extra["corpus"] = run_corpus(chk, mods)
     stats = run_search(chk, mods, 72 if chk.quick else 720)
     chk.extra["search"] = stats
     # 5. platform defects
